@@ -158,7 +158,7 @@ Definition binop (k : bkind) (a b : list N) : list N :=
 Definition reverse1024 (a : list N) : list N := to_list (brev (of_list a)).
 Definition equal1024 (a b : list N) : bool := bequal (of_list a) (of_list b).
 (* for i := 0; i < 16; i++ { c += b[i].Len() } *)
-Definition len1024 (ws : list N) : Z := fold_left (fun c k => c + len64 (nth k ws 0%N)) (seq 0 16) 0.
+Definition len1024 (ws : list N) : Z := fold_left (fun c k => c + len64 (word ws k)) (words_ord false) 0.
 Definition nlen1024 (ws : list N) : Z := 1024 - len1024 ws.
 
 (* Bit64's own methods *)
